@@ -664,6 +664,28 @@ fn main() {
     for (i, s) in seeds.iter().enumerate() {
         cases.extend(mutations_for(s, i, check.tier, check.sub_seed("c05-mut")));
     }
+    // by construction: every exact-size (attributes) seed with PATCH_BIT and ≥ 1 block is also run one byte short
+    // (the length the parser deliberately tolerates) and two bytes short (the first length it must reject)
+    {
+        let have: std::collections::BTreeSet<(usize, usize)> = cases.iter().filter_map(|c| if let Mutation::Prefix(p) = c.m { Some((c.seed, p)) } else { None }).collect();
+        let mut expected = 0;
+        for (i, s) in seeds.iter().enumerate() {
+            let b = &s.bytes;
+            if s.format != "attributes" || b.len() < 10 || s.name.ends_with("1short") {
+                continue;
+            }
+            let (n, flags) = (u16::from_le_bytes([b[0], b[1]]), u32::from_le_bytes([b[6], b[7], b[8], b[9]]));
+            if n > 0 && flags & seeds::attrs::PATCH_BIT != 0 {
+                expected += 1;
+                if have.contains(&(i, b.len() - 1)) && have.contains(&(i, b.len() - 2)) {
+                    check.bump("attributes:patchbit-seed-truncated-by-1-and-2", 1);
+                }
+            }
+        }
+        if expected == 0 || check.counter("attributes:patchbit-seed-truncated-by-1-and-2") != expected {
+            check.inconclusive("essential class empty: PATCH_BIT (attributes) seeds truncated by one and two bytes");
+        }
+    }
     let vals: Vec<Value> = cases.iter().map(|c| serde_json::to_value(c).unwrap()).collect();
     let outs = supervise::run_cases(&spec, &vals, engine::WORKERS);
     for (c, o) in cases.iter().zip(outs.iter()) {
